@@ -220,6 +220,10 @@ func init() {
 		sc.VisitPure = true
 		rich := c15Rich()
 		many := c15Many()
+		last := efundLast()
+		last.Name = "genesis-last-efund"
+		last.Visit = exportImport(last)
+		last.VisitPure = true
 		return &Check{ID: "C15",
 			Runs: []Run{{S: sc, Opt: map[Tier]Options{
 				Quick:    {Depth: 2, Budget: 150 * time.Second, ReplayEvery: 16},
@@ -230,6 +234,9 @@ func init() {
 			}}, {S: many, Opt: map[Tier]Options{
 				Quick:    {Depth: 1, Budget: 100 * time.Second, ReplayEvery: 4},
 				Thorough: {Depth: 2, Budget: 5 * time.Minute, ReplayEvery: 8, MaxStates: 60000},
+			}}, {S: last, Opt: map[Tier]Options{
+				Quick:    {Depth: 2, Budget: 100 * time.Second, ReplayEvery: 16},
+				Thorough: {Depth: 4, Budget: 5 * time.Minute, ReplayEvery: 32, MaxStates: 60000},
 			}}},
 			Owns: ownsAny("genesis."),
 			Extra: func(t Tier, ev *Evidence) []Violation {
